@@ -731,6 +731,9 @@ func driveC17(c *h.Ctx) error {
 		"on each: TagString, Encoder.Enum/Bitmask through the XML, JSON and text writers, Decoder.Tag/Enum/Bitmask of the XML and JSON readers, " +
 		"MarshalText/UnmarshalText of every registered Go enum / mask type; a case is non-trivial when it involves a registered entry or a " +
 		"string/number that is not the zero value; distinct by (table, inputs)")
+	if c.Replay == nil || func() bool { m, _ := c.Replay["case"].(map[string]any); return m != nil && m["kind"] == "concurrent-mask-names" }() {
+		c17Concurrent(c)
+	}
 	live := reg.FromLive()
 	var pinned *reg.Snapshot
 	if b, err := os.ReadFile(filepath.Join(c.Verif, "coq", "theories", "PinnedRegistry.v")); err == nil {
